@@ -225,7 +225,7 @@ var sundays = []time.Time{
 	// recordings from years in which Moscow civil time was UTC+4 (2011-2014, and summers before): GLONASS time is UTC+3 regardless
 	time.Date(2013, 6, 2, 0, 0, 0, 0, time.UTC), time.Date(2010, 7, 4, 0, 0, 0, 0, time.UTC), time.Date(2008, 1, 13, 0, 0, 0, 0, time.UTC),
 	time.Date(2014, 10, 26, 0, 0, 0, 0, time.UTC), // the week in which Moscow changed from UTC+4 to UTC+3
-	time.Date(1999, 8, 22, 0, 0, 0, 0, time.UTC),
+	time.Date(1999, 8, 22, 0, 0, 0, 0, time.UTC), time.Date(2038, 1, 17, 0, 0, 0, 0, time.UTC), time.Date(2100, 2, 28, 0, 0, 0, 0, time.UTC),
 }
 
 var rollPoints = []int64{-10800000, -18000, -4000, 0}
